@@ -48,7 +48,7 @@ def gen_query(rng, w, v_, d):
     ver = rng.choice(VERSIONS)
     f = {'version': ver, 'name': None, 'uuid': None, 'in_tree': None,
          'member_of': [], 'forbidden_aggs': set(), 'required': [],
-         'forbidden': set(), 'resources': {}, 'expect': 200}
+         'forbidden': set(), 'resources': {}, 'dup': None, 'expect': 200}
     unknown_uuid = mkuuid(rng)
     rps = v_.rps
     if rng.random() < 0.12:
@@ -99,6 +99,11 @@ def gen_query(rng, w, v_, d):
             pool = pool + ['CUSTOM_UNKNOWN_CLASS']
         for c in rng.sample(pool, rng.choice([1, 1, 2])):
             f['resources'][c] = rng.choice([1, 1, 2, 3, 4, 8, 16])
+        known = sorted(c for c in f['resources'] if c in w.classes)
+        if known and rng.random() < 0.08:
+            # one class named twice with two amounts: "for each resources
+            # entry ... room for the amount" - or the request is refused
+            f['dup'] = (rng.choice(known), rng.choice([1, 2, 4, 16, 64, 512]))
     return f
 
 
@@ -130,8 +135,10 @@ def to_path(f, rng):
     for t in multis:
         pairs.append(('required', 'in:' + ','.join(sorted(t))))
     if f['resources']:
-        pairs.append(('resources', ','.join('%s:%d' % kv for kv in
-                                            f['resources'].items())))
+        items = list(f['resources'].items())
+        if f['dup']:
+            items.insert(rng.randrange(len(items) + 1), f['dup'])
+        pairs.append(('resources', ','.join('%s:%d' % kv for kv in items)))
     rng.shuffle(pairs)
     return '/resource_providers' + ('?' + '&'.join(
         '%s=%s' % (k, quote(v, safe=':,!')) for k, v in pairs)
@@ -160,6 +167,8 @@ def reference(v, d, f, mode):
         if not all(v.room(u, rc, amt, mode)
                    for rc, amt in f['resources'].items()):
             continue
+        if f['dup'] and not v.room(u, f['dup'][0], f['dup'][1], mode):
+            continue
         out.add(u)
     return out
 
@@ -181,6 +190,8 @@ def signature(f):
         s.append('!trait')
     if f['resources']:
         s.append('resources%d' % len(f['resources']))
+    if f['dup']:
+        s.append('class-twice')
     return '+'.join(s) or 'none'
 
 
@@ -230,6 +241,9 @@ def run_shard(spec, res):
                             'C13|unknown-%s-not-400' % (
                                 'trait' if unknown_trait else 'class'),
                             '%s answered %d' % (path, r.status), wit)
+                    continue
+                if f['dup'] and r.status == 400:
+                    res.count('repeated_class_refused')
                     continue
                 if r.status != 200:
                     res.violation('C13|valid-query-rejected|%d' % r.status,
